@@ -18,7 +18,7 @@ func (node *tagFirstofNode) Execute(ctx *ExecutionContext, writer TemplateWriter
 			if ctx.Autoescape && !arg.FilterApplied("safe") && !val.safe && val.needsEscape() {
 				val, err = ApplyFilter("escape", val, nil)
 				if err != nil {
-					return err
+					return err.updateFromTokenIfNeeded(ctx.template, node.position)
 				}
 			}
 
